@@ -30,7 +30,7 @@ ASSUMPTIONS = ['oracle: the model re-implemented from its definition and differe
 MIN_REACH = {'fitting:jacobian': 1, 'fitting:lmfit_jacobian': 1, 'fitting:covar_errors': 1, 'fitting:errors': 1,
              'fitting:do_lmfit': 1}
 MIN_COUNTERS = {'contract_Cmatrix': 10, 'contract_Bmatrix': 5, 'contract_component_errors': 10, 'component_shape_errors_judged': 5, 'contract_jacobian': 50, 'contract_lmfit_jacobian': 50, 'contract_covar_errors': 50,
-                'sigma_entries_judged': 100, 'noise_model_selection_judged': 20, 'insitu_priorized_fits': 5}
+                'sigma_entries_judged': 100, 'noise_model_selection_judged': 20, 'insitu_priorized_fits': 5, 'insitu_fits_seen': 20}
 
 _OBS = None
 _installed = False
@@ -39,6 +39,7 @@ NAMES = fisher.NAMES
 EVERY = 1           # in-situ thinning for large islands (set by other properties)
 
 
+_PENDING_FIT = False   # a fit was made (do_lmfit returned) and covar_errors has not been called since
 EXPECT_COV = None      # docov selected by the caller of the finder entry point currently running (None: not known)
 
 
@@ -159,6 +160,8 @@ def post_covar_errors(params, data, errs, B, C, result):
     o = _OBS
     if o is None:
         return True
+    global _PENDING_FIT
+    _PENDING_FIT = False
     comps, free = _unpack(result)
     if EXPECT_COV is not None:
         # "the noise/covariance model": the one the caller of the finder selected with docov
@@ -437,6 +440,14 @@ def install():
     orig_rtc = sfm.SourceFinder.result_to_components
 
     def result_to_components(self, result, model, island_data, isflags):
+        global _PENDING_FIT
+        if _PENDING_FIT and _OBS is not None:
+            # a fit was made and its parameters are being turned into catalogue rows, but the 1-sigma errors were never
+            # computed from the Fisher matrix (covar_errors was not called after the fit): the rows carry something else
+            _OBS.violate('errors_of_a_fit_not_taken_from_the_fisher_matrix', {
+                'island': getattr(island_data, 'isle_num', None), 'docov_selected': EXPECT_COV,
+                'stderr_arriving': {k: (None if model[k].stderr is None else float(model[k].stderr)) for k in list(model)[:7] if model[k].vary}})
+        _PENDING_FIT = False
         out = orig_rtc(self, result, model, island_data, isflags)
         try:
             post_result_to_components(model, out, self)
@@ -445,6 +456,16 @@ def install():
                 _OBS.count('contract_component_errors_monitor_fault')
         return out
     sfm.SourceFinder.result_to_components = result_to_components
+    orig_fit = sfm.do_lmfit
+
+    def do_lmfit(*a, **kw):
+        global _PENDING_FIT
+        r = orig_fit(*a, **kw)
+        _PENDING_FIT = True
+        if _OBS is not None:
+            _OBS.count('insitu_fits_seen')
+        return r
+    sfm.do_lmfit = do_lmfit
     # which noise model did the caller select?  recorded at the public entry points, judged where the errors are computed
     for meth in ('find_sources_in_image', 'priorized_fit_islands'):
         def make(orig_m):
